@@ -426,21 +426,43 @@ func c16matStep(m *gozxing.BitMatrix, t []string) string {
 		m.Rotate90()
 	case "xor":
 		mask := c16matLit(t[1])
-		return c16errS(m.Xor(mask))
+		res := c16errS(m.Xor(mask))
+		mask.FlipAll()
+		return res
 	case "setRegion":
 		return c16errS(m.SetRegion(c16atoi(t[1]), c16atoi(t[2]), c16atoi(t[3]), c16atoi(t[4])))
 	case "getRow":
 		in := c16arrLit(t[2])
 		out := m.GetRow(c16atoi(t[1]), in)
-		return c16arrFull(out)
+		res := c16arrFull(out)
+		// what is handed out must be a COPY: scribbling over the returned row (a caller reusing it as a scratch buffer)
+		// must leave the matrix alone — the state comparison after this step sees it otherwise
+		c16scribble(out)
+		return res
 	case "setRow":
-		m.SetRow(c16atoi(t[1]), c16arrLit(t[2]))
+		row := c16arrLit(t[2])
+		m.SetRow(c16atoi(t[1]), row)
+		c16scribble(row) // ... and the matrix must not keep a reference to the argument
 	case "toStr":
 		return c16hex([]byte(m.ToStringWithLineSeparator(c16unhex(t[1]), c16unhex(t[2]), c16unhex(t[3]))))
 	default:
 		panic("bad op " + t[0])
 	}
 	return "ok"
+}
+
+// c16scribble overwrites every bit of a row the harness owns (all ones, then a flip of every other bit).
+func c16scribble(a *gozxing.BitArray) {
+	if a == nil {
+		return
+	}
+	for i := 0; i < a.GetSize(); i++ {
+		if i%2 == 0 {
+			a.Set(i)
+		} else if a.Get(i) {
+			a.Flip(i)
+		}
+	}
 }
 
 func c16arrStep(a *gozxing.BitArray, t []string) string {
@@ -474,11 +496,16 @@ func c16arrStep(a *gozxing.BitArray, t []string) string {
 		v, _ := strconv.ParseUint(t[1], 10, 64)
 		return c16errS(a.AppendBits(int(v), c16atoi(t[2])))
 	case "appendArr":
-		a.AppendBitArray(c16arrLit(t[1]))
+		other := c16arrLit(t[1])
+		a.AppendBitArray(other)
+		c16scribble(other)
 	case "appendSelf":
 		a.AppendBitArray(a)
 	case "xor":
-		return c16errS(a.Xor(c16arrLit(t[1])))
+		other := c16arrLit(t[1])
+		res := c16errS(a.Xor(other))
+		c16scribble(other)
+		return res
 	case "xorSelf":
 		return c16errS(a.Xor(a))
 	case "toBytes":
